@@ -22,7 +22,7 @@ import numpy as np
 from common import *
 import tr_footprint as TR
 
-IMPORTS = "From CV Require Import Base.Tac Base.Cmp Model.C14_Chain Model.C14_Burn Model.C14_Out."
+IMPORTS = "From CV Require Import Base.Tac Base.Cmp Model.C14_Chain Model.C14_Burn Model.C14_Out Model.C14_Warm."
 RULE = ("one case = one (sampler configuration, operation sequence, random seed): operation sequences enumerate every split "
         "position and every checkpoint position 0..N of the sampling phase (N<=8 quick / <=40 thorough), with and without warm-up, "
         "in-memory and on-disk checkpoints, plus multi-split/multi-resume sequences; stateless interface: all (N, Nb) in a grid for "
@@ -36,6 +36,9 @@ SIG_MHCB = "legacy.MH._sample_adapt|callback-never-invoked"
 SIG_RTO = "RegularizedLinearRTO._choose_stepsize|stepsize=automatic"
 SIG_NUTS = "NUTS.reinitialize|state-key-not-rebound:max_depth"
 SIG_GIBBS_LIVE = "legacy.Gibbs.sample|returns-live-storage"
+SIG_BATCH = "Sampler.sample|batch:remainder-never-flushed"
+SIG_BATCH2 = "Sampler.sample|batch:next-call-overwrites-files"
+SIG_GIBBS0 = "legacy.Gibbs.sample|continuation-after-Ns=0"
 
 
 def coq_ll(ll, ids):
@@ -88,6 +91,76 @@ class Stream:
 
     def draws(self):
         return [k for k, _, _ in self.sr.log]
+
+
+class PoisonError(Exception):
+    pass
+
+
+class Poison:
+    """value written into every attribute the extracted footprint declares irrelevant: any use raises"""
+
+    def _boom(self, *a, **k):
+        raise PoisonError("an attribute outside the extracted footprint was used")
+    __getattr__ = __call__ = __getitem__ = __setitem__ = __len__ = __iter__ = __bool__ = __float__ = __int__ = __index__ = _boom
+    __add__ = __radd__ = __sub__ = __rsub__ = __mul__ = __rmul__ = __truediv__ = __rtruediv__ = __matmul__ = __rmatmul__ = _boom
+    __neg__ = __pow__ = __rpow__ = __lt__ = __le__ = __gt__ = __ge__ = __array__ = __hash__ = _boom
+
+    def __eq__(self, o):
+        raise PoisonError("an attribute outside the extracted footprint was compared")
+
+    def __repr__(self):
+        return "<poison>"
+
+
+_FACTS = {}
+
+
+def facts_of(repo):
+    if repo not in _FACTS:
+        try:
+            _FACTS[repo] = TR.extract_experimental(repo)
+        except Exception:
+            _FACTS[repo] = {}
+    return _FACTS[repo]
+
+
+def poison_irrelevant(s, f, warm):
+    """overwrite every instance attribute that, according to the extracted facts, neither sample() [nor warmup()] can
+    read before writing it -- including the state keys, which set_state is about to replace"""
+    reads = f["warmup_r"] if warm else f["sample_r"]
+    scratch = set(f["step_wfirst"])
+    state = set(f["state"])
+    keep = set(a for a in reads if a not in scratch and a not in state) | {"callback", "tune", "_is_initialized", "_target"}
+    done = []
+    for a in list(vars(s)):
+        if a not in keep:
+            object.__setattr__(s, a, Poison())
+            done.append(a)
+    return done
+
+
+_ORIG_ESN = {}
+
+
+def det_spectral(on=True):
+    """RegularizedLinearRTO(stepsize='automatic') takes its step size from SciPy's randomised estimate_spectral_norm, which
+    draws from SciPy's own generator: seeded before every call, two samplers of one configuration agree (the finding
+    about the unseeded estimate is replayed separately, with the patch off)"""
+    import scipy.linalg.interpolative as sli
+    import cuqi.experimental.mcmc._rto as m1
+    import cuqi.sampler._rto as m2
+    for m in (m1, m2):
+        if m not in _ORIG_ESN:
+            _ORIG_ESN[m] = m.estimate_spectral_norm
+        real = _ORIG_ESN[m]
+        if on:
+            def wrapped(A, *a, _real=real, **k):
+                sli.seed(4711)
+                return _real(A, *a, **k)
+            m.estimate_spectral_norm = wrapped
+        else:
+            m.estimate_spectral_norm = real
 
 
 @contextlib.contextmanager
@@ -166,8 +239,16 @@ class World:
         xg = Gaussian(np.zeros(n), lambda d: 1 / d, name="x")
         yg = Gaussian(A @ xg, lambda l: 1 / l, name="y")
         self.joint = JointDistribution(d, l, xg, yg)(y=ydata)
-        self.dims = {"g2": 2, "post": n, "postr": n, "postl": n}
-        T = {"g2": g2, "post": post, "postr": postr, "postl": postl}
+        # conditionals of a hyper-parameter: Gaussian-Gamma pair (Conjugate) and LMRF-Gamma pair (ConjugateApprox)
+        dc = Gamma(1, 1e-2, name="d")
+        xc = Gaussian(np.zeros(n), lambda d: 1 / d, name="x")
+        yc = Gaussian(A @ xc, 0.25, name="y")
+        conj = JointDistribution(dc, xc, yc)(y=ydata, x=np.array([0.5, -0.25, 1.0]))
+        da = Gamma(1, 1e-2, name="d")
+        xa = LMRF(0, lambda d: 1 / d, geometry=n, name="x")
+        conja = JointDistribution(da, xa)(x=np.array([0.5, -0.25, 1.0]))
+        self.dims = {"g2": 2, "post": n, "postr": n, "postl": n, "conj": 1, "conja": 1}
+        T = {"g2": g2, "post": post, "postr": postr, "postl": postl, "conj": conj, "conja": conja}
         # experimental interface: name -> (class, target, kwargs)
         self.exp = {
             "MH/scale=0.7": (E.MH, "g2", dict(scale=0.7)),
@@ -184,6 +265,8 @@ class World:
             "RegularizedLinearRTO/stepsize=0.02": (E.RegularizedLinearRTO, "postr", dict(maxit=30, stepsize=0.02)),
             "UGLA": (E.UGLA, "postl", dict(maxit=20)),
             "Direct": (E.Direct, "g2", dict()),
+            "Conjugate/GaussianGamma": (E.Conjugate, "conj", dict()),
+            "ConjugateApprox/LMRFGamma": (E.ConjugateApprox, "conja", dict()),
         }
         # stateless interface: name -> (class, target, kwargs, method, reference kind)
         self.leg = {
@@ -200,6 +283,7 @@ class World:
             "NUTS/step_size=0.3": (Lg.NUTS, "g2", dict(adapt_step_size=0.3, max_depth=2), "sample", "return_burnin"),
             "LinearRTO/sample": (Lg.LinearRTO, "post", dict(maxit=20), "sample", "unsliced"),
             "RegularizedLinearRTO/stepsize=0.02": (Lg.RegularizedLinearRTO, "postr", dict(maxit=30, stepsize=0.02), "sample", "unsliced"),
+            "RegularizedLinearRTO/stepsize=automatic": (Lg.RegularizedLinearRTO, "postr", dict(maxit=30), "sample", "unsliced"),
             "UGLA/sample": (Lg.UGLA, "postl", dict(maxit=20), "sample", "unsliced"),
         }
         self.targets = T
@@ -210,8 +294,8 @@ class World:
             return None
         d = self.dims[tkey]
         v = [rng.randint(-8, 8) / 8.0 for _ in range(d)]
-        if tkey == "postr":
-            v = [abs(a) for a in v]
+        if tkey in ("postr", "conj", "conja"):
+            v = [abs(a) + (0.5 if tkey != "postr" else 0.0) for a in v]
         return v
 
     def make_exp(self, name, x0):
@@ -245,6 +329,8 @@ _WORLD = {}
 def world(ctx):
     if ctx.repo not in _WORLD:
         _WORLD[ctx.repo] = World()
+        _WORLD[ctx.repo].repo = ctx.repo
+        det_spectral(True)
     return _WORLD[ctx.repo]
 
 
@@ -264,7 +350,8 @@ def cols(S):
         return []
     a = np.asarray(S.samples if hasattr(S, "samples") else S, dtype=np.float64)
     if a.ndim == 1:
-        return [canon(a)]
+        # a Samples object always has one entry per sample on its last axis (scalar samples); a bare vector is one sample
+        return [canon(v) for v in a] if hasattr(S, "samples") else [canon(a)]
     return [canon(a[..., k]) for k in range(a.shape[-1])]
 
 
@@ -338,6 +425,8 @@ def run_exp(W, name, x0, ops, seed, variant="mem", ledger=None):
     led = ledger or Ledger()
     outs = []
     ckdir = None
+    poisoned = []
+    init_b = [None]
 
     def attach(s):
         def callback(x, i):
@@ -354,6 +443,8 @@ def run_exp(W, name, x0, ops, seed, variant="mem", ledger=None):
         return s
 
     def hand_out(s, after):
+        if init_b[0] is None:
+            init_b[0] = canon(s.initial_point)
         led.recheck(after)
         G = s.get_samples() if len(s._samples) else None
         outs.append(G)
@@ -390,10 +481,18 @@ def run_exp(W, name, x0, ops, seed, variant="mem", ledger=None):
                 else:
                     payload = s.get_state()
                     led.give("get_state", payload, rd_state)
-                    if variant == "mem":
+                    if variant in ("mem", "poison"):
                         payload = copy.deepcopy(payload)
                     with ScriptedRandom(seed + 7919), quiet():
                         fresh.initialize()
+                    if variant == "poison":
+                        # behavioural non-interference: whatever the extracted footprint declares irrelevant for the
+                        # operations still to come is destroyed in the fresh sampler before the state is loaded
+                        warm_later = any(o[0] == "W" for o in ops[len(outs) + 1:])
+                        f = facts_of(getattr(W, "repo", "/repo")).get(type(fresh).__name__)
+                        if f is None:
+                            raise RuntimeError("no extracted facts for %s" % type(fresh).__name__)
+                        poisoned.extend(poison_irrelevant(fresh, f, warm_later))
                     fresh.set_state(payload)
                 s = fresh
                 last_resume = pos
@@ -419,7 +518,8 @@ def run_exp(W, name, x0, ops, seed, variant="mem", ledger=None):
     return {"smp": smp, "nacc": len(s._acc), "cb": list(cb), "cb_now": cb_now, "outs_now": outs_now, "tunes": list(tunes),
             "last_resume": last_resume, "handout": led.bad, "ledger": led,
             "state": {k: canon_val(v) for k, v in sorted(s.get_state()["state"].items())},
-            "draws": stream.draws(), "gs_ok": gs_ok, "init": canon(s.initial_point), "sampler": s}
+            "draws": stream.draws(), "gs_ok": gs_ok, "init": init_b[0] if init_b[0] is not None else canon(s.initial_point),
+            "poisoned": poisoned, "sampler": s}
 
 
 def exp_expected(ref, ops):
@@ -582,7 +682,10 @@ def run_gibbs(W, calls, nb, seed, scribble=False):
     warm = None
     with Stream(seed), quiet():
         for i, n in enumerate(calls):
-            R = g.sample(n, nb) if i == 0 else g.sample(n)
+            try:
+                R = g.sample(n, nb) if i == 0 else g.sample(n)
+            except Exception as e:
+                return {"error": "call %d, sample(%d): %s: %s" % (i, n, type(e).__name__, e)}
             if not scribble:
                 led.recheck("sample call %d" % i)
                 led.give("returned-chain", R, rd_dict)
@@ -678,8 +781,10 @@ def exp_case(W, cache, name, x0, ops, seed, variant):
     try:
         obs = run_exp(W, name, x0, ops, seed, variant)
     except Exception as e:
-        return Case(expr="false", meta=meta, cell="exp/%s/error" % cls, impl_fail="operation sequence raised %s: %s" % (type(e).__name__, e),
-                    signature="%s.run|%s" % (cls, name.split("/", 1)[-1]))
+        kind = "noninterference" if variant == "poison" else "run"
+        return Case(expr="false", meta=meta, cell="exp/%s/error" % cls,
+                    impl_fail="%s %s [%s]: operation sequence raised %s: %s" % (name, ops, variant, type(e).__name__, e),
+                    signature="%s.%s|%s" % (cls, kind, name.split("/", 1)[-1]))
     obs.pop("sampler")
     obs.pop("ledger")
     bad = exp_check(ref, obs, ops)
@@ -700,6 +805,8 @@ def exp_case(W, cache, name, x0, ops, seed, variant):
         kind = bad[0]
         if scribble and not kind.startswith("handout"):
             kind = "scribble"          # the twin without the user's write is a case of its own
+        if variant == "poison" and kind in ("resume", "split"):
+            kind = "noninterference"   # the same checkpoint position without poisoning is a case of its own
         sig = "%s.%s|%s" % (cls, kind, name.split("/", 1)[1] if "/" in name else "default")
         if name == "RegularizedLinearRTO/stepsize=automatic" and bad[0] in ("split", "resume"):
             sig = SIG_RTO       # two sampler objects never agree bit for bit in this configuration class
@@ -749,6 +856,11 @@ def gibbs_case(W, calls, nb, seed, scribble=False):
     ref_ids = [ids(b"init")] + [ids(b) for b in ref["warm"]] + [ids(b) for b in ref["smp"]]
     bad, sig = None, ""
     cum = [[sum(calls[:i + 1])] for i in range(len(calls))]
+    if "error" in obs:
+        bad = "legacy Gibbs, calls %s with Nb=%d: %s" % (calls, nb, obs["error"])
+        sig = SIG_GIBBS0 if (calls[0] == 0 and "IndexError" in obs["error"]) else "legacy.Gibbs.sample|raises"
+        expr = "check_gibbs %s %s %s []" % (czvec(ref_ids), cnat(nb), clist([cnat(c) for c in calls]))
+        return Case(expr=expr, meta=meta, cell="gibbs/legacy/first-call-Ns=0", trivial=False, kind="DECISION", impl_fail=bad, signature=sig)
     if obs["smp"] != ref["smp"]:
         k = next((i for i, (a, b) in enumerate(zip(obs["smp"], ref["smp"])) if a != b), min(len(obs["smp"]), len(ref["smp"])))
         if scribble:
@@ -773,7 +885,7 @@ def gibbs_case(W, calls, nb, seed, scribble=False):
             czvec(ref_ids), cnat(nb), clist([cnat(c) for c in calls]), czvec([ids(b) for b in obs["smp"]]),
             czvec(ref_ids), cnat(nb), clist([cnat(c) for c in calls]), coq_ll(obs["outs_now"], ids),
             cbool(obs["lens"] == cum and obs["warm"] == ref["warm"]))
-    return Case(expr=expr, meta=meta, cell="gibbs/legacy/%s" % ("scribble" if scribble else "single" if len(calls) == 1 else "continued"),
+    return Case(expr=expr, meta=meta, cell="gibbs/legacy/%s" % ("first-call-Ns=0" if calls[0] == 0 else "scribble" if scribble else "single" if len(calls) == 1 else "continued"),
                 trivial=len(calls) == 1, kind="DECISION", impl_fail=bad, signature=sig)
 
 
@@ -808,6 +920,159 @@ def hybrid_case(W, name, ops, seed, scribble=False):
     return Case(expr=expr, meta=meta, cell="gibbs/%s/%s" % (name, "scribble" if scribble else "split" if nS > 1 else "single"),
                 trivial=nS <= 1 and not scribble, kind="DECISION",
                 impl_fail=bad, signature="HybridGibbs.%s|%s" % (kind, name.split("/", 1)[1]) if bad else "")
+
+
+EXCUSE_VALID = {
+    # _mu = log(10 * initial epsilon): a function of the configuration only when the step size is given
+    ("NUTS", "_mu"): lambda kw: kw.get("step_size") is not None,
+    # deterministic under det_spectral(); a number when stepsize is numeric
+    ("RegularizedLinearRTO", "_stepsize"): lambda kw: True,
+}
+
+
+def warm_static_ok(W, name):
+    cls, tkey, kw = W.exp[name]
+    f = facts_of(getattr(W, "repo", "/repo")).get(cls.__name__)
+    if f is None:
+        return False, "no facts"
+    if TR.warm_resume_ok([], [], f):
+        return True, "plain"
+    ex, scr = TR.warm_excuses(f)
+    if TR.warm_resume_ok(ex, scr, f) and all(EXCUSE_VALID.get((cls.__name__, a), lambda kw: False)(kw) for a in ex):
+        return True, "excused %s scratch %s" % (ex, scr)
+    return False, "tune reads unsaved run-modified attributes"
+
+
+def warm_case(W, name, x0, a, b, n, seed, variant):
+    """checkpoint BETWEEN warm-up calls: [warmup a; checkpoint; warmup b; sample n] against [warmup a; warmup b; sample n]"""
+    cls = W.exp[name][0].__name__
+    ops = [("W", a, 1, 2), ("R",), ("W", b, 1, 2), ("S", n)]
+    meta = {"kind": "warm", "config": name, "x0": x0, "a": a, "b": b, "n": n, "seed": seed, "variant": variant}
+    static_ok, why = warm_static_ok(W, name)
+    ref = run_exp(W, name, x0, [o for o in ops if o[0] != "R"], seed)
+    err = None
+    try:
+        obs = run_exp(W, name, x0, ops, seed, variant)
+        same = (obs["smp"] == ref["smp"][a:] and obs["state"] == ref["state"] and obs["draws"] == ref["draws"])
+    except Exception as e:
+        same, err = False, "%s: %s" % (type(e).__name__, e)
+    bad = None
+    if static_ok and not same:
+        bad = ("%s: the extracted facts promise that a checkpoint between warm-up calls can be continued (%s), but [warmup %d; checkpoint(%s); "
+               "warmup %d; sample %d] %s" % (name, why, a, variant, b, n, ("raised " + err) if err else "differs from the uninterrupted run"))
+    expr = "check_warm %s %s" % (cbool(static_ok), cbool(same))
+    return Case(expr=expr, meta=meta, cell="warm-resume/%s/%s-%s" % (cls, "promised" if static_ok else "not-promised", "same" if same else "differs"),
+                trivial=False, kind="DECISION", impl_fail=bad,
+                signature="%s.resume-warmup|%s" % (cls, name.split("/", 1)[1] if "/" in name else "default") if bad else "")
+
+
+def batch_dir():
+    d = os.path.join(GEN, "c14_batch_%d" % os.getpid())
+    shutil.rmtree(d, ignore_errors=True)
+    return d
+
+
+def batch_cases(W, name, x0, N, k, M, seed, finalized):
+    """sample(N, batch_size=k) writes batch files; then sample(M, batch_size=k) into the same directory"""
+    cls = W.exp[name][0].__name__
+    d = batch_dir()
+    out = []
+    try:
+        s = W.make_exp(name, x0)
+        with Stream(seed), quiet():
+            s.sample(N, batch_size=k, sample_path=d + "/")
+        chain = [canon(x) for x in s._samples]
+        files = sorted(f for f in os.listdir(d) if f.endswith(".npz"))
+        got = []
+        for i, fn in enumerate(files):
+            z = np.load(os.path.join(d, fn))
+            got.append([canon(r) for r in z["samples"]])
+            if int(z["batch_id"]) != i:
+                got.append([b"bad batch id"])
+        ids = Ids()
+        meta = {"kind": "batch", "config": name, "x0": x0, "N": N, "k": k, "M": M, "seed": seed}
+        flat = [b for g in got for b in g]
+        bad, sig = None, ""
+        if flat != chain or any(len(g) != k for g in got[:-1]) or any(len(g) == 0 or len(g) > k for g in got):
+            full = [chain[i:i + k] for i in range(0, len(chain), k) if len(chain[i:i + k]) == k]
+            if got == full:
+                bad, sig = ("%s sample(%d, batch_size=%d): the batch files hold %d of the %d recorded samples -- the last %d are never written "
+                            "(the handler's finalize() is never called)" % (name, N, k, len(flat), len(chain), len(chain) - len(flat))), SIG_BATCH
+            else:
+                bad, sig = "%s sample(%d, batch_size=%d): batch files %s are not the recorded chain in groups of %d" % (
+                    name, N, k, [len(g) for g in got], k), "%s.sample|batch:content" % cls
+        expr = "check_batches %s %s %s %s" % (cbool(finalized), cnat(k), czvec([ids(b) for b in chain]), coq_ll(got, ids))
+        out.append(Case(expr=expr, meta=meta, cell="batch/%s/%s" % (cls, "divides" if N % k == 0 else "remainder"), trivial=False, kind="DECISION",
+                        impl_fail=bad, signature=sig))
+        # a later call must not alter the files written by the earlier one
+        if M and files:
+            led = Ledger()
+            for fn in files:
+                led.give("batch-file", os.path.join(d, fn), rd_file)
+            with Stream(seed + 1), quiet():
+                s.sample(M, batch_size=k, sample_path=d + "/")
+            led.recheck("a second sample(%d, batch_size=%d) into the same directory" % (M, k))
+            bad2 = None
+            if led.bad:
+                bad2 = "%s sample(%d, batch_size=%d) then sample(%d, batch_size=%d): %s (batch numbering restarts at 0 in every call)" % (
+                    name, N, k, M, k, led.bad[1])
+            out.append(Case(expr=cbool(True), meta=dict(meta, second=True), cell="batch/%s/second-call" % cls, trivial=False, kind="DECISION",
+                            impl_fail=bad2, signature=SIG_BATCH2 if bad2 else ""))
+    finally:
+        shutil.rmtree(d, ignore_errors=True)
+    return out
+
+
+def adapt_refusal_case(W, name, x0, N, Nb, seed):
+    cls = W.leg[name][0].__name__
+    meta = {"kind": "adapt-refusal", "config": name, "x0": x0, "N": N, "Nb": Nb, "seed": seed}
+    s = W.make_leg(name, x0)
+    raised, other = False, None
+    try:
+        with Stream(seed), quiet():
+            s.sample_adapt(N, Nb)
+    except ZeroDivisionError:
+        raised = True
+    except Exception as e:
+        other = "%s: %s" % (type(e).__name__, e)
+    bad = None
+    if other:
+        bad = "%s sample_adapt(%d,%d) raised %s" % (name, N, Nb, other)
+    elif raised and N >= 10:
+        bad = "%s sample_adapt(%d,%d) raised ZeroDivisionError although the adaptation interval int(0.1 N) is positive" % (name, N, Nb)
+    return Case(expr="check_adapt_refusal %s %s" % (cnat(N), cbool(raised)) if not other else "false", meta=meta,
+                cell="legacy/%s/sample_adapt/%s" % (cls, "refused" if raised else "accepted"), trivial=False, kind="DECISION",
+                impl_fail=bad, signature="legacy.%s._sample_adapt|refusal" % cls if bad else "")
+
+
+CROSS = [("MH/scale=0.7", "MH/sample"), ("CWMH/scalar-scale", "CWMH/sample"), ("PCN/scale=0.12", "pCN/sample"), ("ULA/scale=0.01", "ULA/sample"),
+         ("MALA/scale=0.05", "MALA/sample"), ("LinearRTO", "LinearRTO/sample"), ("UGLA", "UGLA/sample"),
+         ("NUTS/step_size=0.3,max_depth=2", "NUTS/step_size=0.3")]
+
+
+def cross_case(W, ename, lname, x0, N, seed, aliased):
+    """the two interfaces implement the same transitions: under one scripted stream the chain returned by the stateless
+    sampler is x0 followed by the chain recorded by the stateful one -- a reference for `consecutive states of one chain`
+    that does not come from the code under test itself"""
+    cls = W.leg[lname][0].__name__
+    meta = {"kind": "cross", "config": ename, "legacy": lname, "x0": x0, "N": N, "seed": seed}
+    e = run_exp(W, ename, x0, [("S", N - 1)], seed)
+    l = run_legacy(W, lname, x0, N, 0, seed)
+    if "error" in l:
+        return Case(expr="false", meta=meta, cell="cross/%s/error" % cls, impl_fail="legacy sample raised " + l["error"], signature="legacy.%s._sample|raises" % cls)
+    ids = Ids()
+    full = [e["init"]] + e["smp"]
+    ref_ids = [ids(b) for b in full]
+    bad, sig = None, ""
+    if l["smp"] != full:
+        k = next((i for i, (a, b) in enumerate(zip(l["smp"], full)) if a != b), min(len(l["smp"]), len(full)))
+        bad = ("%s vs %s, N=%d: entry %d of the chain returned by the stateless sampler is %s, the stateful sampler recorded %s for the same "
+               "transition under the same random stream" % (lname, ename, N, k, fl(l["smp"][k]) if k < len(l["smp"]) else None, fl(full[k]) if k < len(full) else None))
+        sig = SIG_CWMH if (cls == "CWMH" and aliased) else "cross.%s|stateless-vs-stateful" % cls
+    cbv = l["cb"] if aliased else l["cb_now"]
+    expr = "check_legacy %s %s %s %s %s %s" % (czvec(ref_ids), cbool(aliased), cnat(N), cnat(0), czvec([ids(b) for b in l["smp_now"]]),
+                                               coq_cb([(ids(b), i) for b, i in cbv]))
+    return Case(expr=expr, meta=meta, cell="cross/%s" % cls, trivial=N <= 1, kind="DECISION", impl_fail=bad, signature=sig)
 
 
 def burn_cases(W, name, x0, ops, seed, grid):
@@ -995,6 +1260,9 @@ def exp_ops_lattice(ctx, rng, warm_capable=True):
         out.append(([("S", k), ("R",), ("S", N - k)], "live"))
     for k in sorted(set([1, N // 2])):
         out.append(([("S", k), ("S", N - k)], "mem+scribble"))
+    for k in sorted(set([0, 2, N // 2, N - 1])):
+        out.append(([("S", k), ("R",), ("S", N - k)], "poison"))
+    out.append(([("W", 5, 1, 4), ("S", 1), ("R",), ("S", 4)], "poison"))
     Nw = ctx.n(6, 20)
     warm = [("W", 5, 1, 4)] if not ctx.thorough else [("W", 5, 1, 4), ("W", 12, 1, 10), ("W", 20, 1, 2)]
     for w in warm:
@@ -1028,10 +1296,22 @@ def gen_cases(ctx, rng, thorough_sizes=None):
         nb, n = 4, ctx.n(5, 9)
         grid = [(b, t) for b in (0, nb, nb + n - 1, nb + n) for t in (0, 1, 2, nb + n + 1)]
         cases += burn_cases(W, name, W.x0(rng, tkey, name), [("W", nb, 1, 4), ("S", n)], rng.randint(1, 10 ** 6), grid)
+        # checkpoint between warm-up calls: what the extracted facts promise must hold
+        for (a, b, n, variant) in ((4, 4, 3, "mem"), (2, 6, 2, "poison"), (6, 2, 2, "file")) + (((10, 10, 5, "mem"), (7, 9, 4, "poison")) if ctx.thorough else ()):
+            cases.append(warm_case(W, name, W.x0(rng, tkey, name), a, b, n, rng.randint(1, 10 ** 6), variant))
         # reinitialize
         for prefix in ([("S", 3)], [("W", 4, 1, 4), ("S", 2)], [("S", 0)]):
             x0 = W.x0(rng, tkey, name)
             cases.append(reinit_case(W, name, x0, prefix, ctx.n(4, 10), rng.randint(1, 10 ** 6)))
+    # ---- batches on disk
+    try:
+        fin = TR.batch_finalized(ctx.repo)
+    except Exception:
+        fin = False
+    for name in ("MH/scale=0.7", "LinearRTO", "Direct"):
+        tkey = W.exp[name][1]
+        for (N, k, M) in ((6, 3, 3), (7, 3, 2), (5, 1, 0), (4, 4, 0), (3, 5, 4), (8, 3, 0)) + (((20, 7, 5), (21, 7, 7), (9, 2, 0)) if ctx.thorough else ()):
+            cases += batch_cases(W, name, W.x0(rng, tkey, name), N, k, M, rng.randint(1, 10 ** 6), fin)
     # ---- stateless interface
     try:
         leg_facts = TR.extract_legacy(ctx.repo)
@@ -1049,7 +1329,19 @@ def gen_cases(ctx, rng, thorough_sizes=None):
         for (N, Nb) in grid:
             x0 = W.x0(rng, tkey) if tkey != "postr" else W.x0(rng, tkey)
             cases.append(legacy_case(W, name, x0, N, Nb, rng.randint(1, 10 ** 6), aliased))
+    # the two interfaces against each other
+    for ename, lname in CROSS:
+        cls = W.leg[lname][0]
+        aliased = bool(leg_facts.get(cls.__name__, {}).get("_sample", {}).get("argmut"))
+        for N in ((2, 5, 9) if not ctx.thorough else (1, 2, 3, 5, 9, 17, 30)):
+            cases.append(cross_case(W, ename, lname, W.x0(rng, W.exp[ename][1]), N, rng.randint(1, 10 ** 6), aliased))
+    # sample_adapt below the adaptation interval: a refusal (ZeroDivisionError) exactly for N < 10
+    for name in ("MH/sample_adapt", "CWMH/sample_adapt", "pCN/sample_adapt"):
+        for (N, Nb) in ((1, 0), (5, 2), (9, 0), (9, 3), (10, 0), (11, 1)):
+            cases.append(adapt_refusal_case(W, name, W.x0(rng, W.leg[name][1]), N, Nb, rng.randint(1, 10 ** 6)))
     # ---- Gibbs
+    for (calls, nb) in (([0, 3], 2), ([0, 2, 1], 3), ([0, 2], 0)):
+        cases.append(gibbs_case(W, calls, nb, rng.randint(1, 10 ** 6)))
     for nb in ([0, 2] if not ctx.thorough else [0, 2, 5]):
         for calls in ([[4], [1, 3], [2, 2], [3, 1], [1, 1, 2], [2, 1, 1]] if not ctx.thorough else
                       [[8]] + [[k, 8 - k] for k in range(1, 8)] + [[1, 1, 2], [2, 1, 1], [3, 2, 3], [1, 1, 1, 1, 1]]):
@@ -1104,6 +1396,24 @@ def _rerun(ctx, m):
         return gibbs_case(W, m["calls"], m["Nb"], m["seed"], scribble=m.get("scribble", False))
     if k == "hybrid":
         return hybrid_case(W, m["config"], [tuple(o) for o in m["ops"]], m["seed"], scribble=m.get("scribble", False))
+    if k == "cross":
+        try:
+            lf = TR.extract_legacy(ctx.repo)
+        except Exception:
+            lf = {}
+        aliased = bool(lf.get(W.leg[m["legacy"]][0].__name__, {}).get("_sample", {}).get("argmut"))
+        return cross_case(W, m["config"], m["legacy"], m["x0"], m["N"], m["seed"], aliased)
+    if k == "warm":
+        return warm_case(W, m["config"], m["x0"], m["a"], m["b"], m["n"], m["seed"], m["variant"])
+    if k == "batch":
+        try:
+            fin = TR.batch_finalized(ctx.repo)
+        except Exception:
+            fin = False
+        cs = batch_cases(W, m["config"], m["x0"], m["N"], m["k"], m["M"], m["seed"], fin)
+        return cs[1] if (m.get("second") and len(cs) > 1) else cs[0]
+    if k == "adapt-refusal":
+        return adapt_refusal_case(W, m["config"], m["x0"], m["N"], m["Nb"], m["seed"])
     if k == "burn":
         cs = burn_cases(W, m["config"], m["x0"], [tuple(o) for o in m["ops"]], m["seed"], [(m["Nb"], m["Nt"])])
         return cs[0]
@@ -1153,6 +1463,7 @@ def known_witnesses(ctx):
     # #28 RegularizedLinearRTO: _stepsize is a randomised estimate outside the checkpoint
     name = "RegularizedLinearRTO/stepsize=automatic"
     vals = []
+    det_spectral(False)          # the finding is about the estimate as the library draws it
     for _ in range(8):
         a = W.make_exp(name, [0.5, 0.25, 0.0])
         with quiet():
@@ -1160,12 +1471,24 @@ def known_witnesses(ctx):
         vals.append(float(a._stepsize))
     differs = len(set(vals)) > 1
     c = exp_case(W, {}, name, [0.5, 0.25, 0.0], [("S", 3), ("R",), ("S", 3)], 13, "mem")
+    det_spectral(True)
     out[SIG_RTO] = (bool(c.impl_fail) or differs,
                     (c.impl_fail or "") + ("; freshly initialised samplers of the same configuration hold _stepsize values %s" % sorted(set(vals))
                                            if differs else ""))
     # legacy Gibbs hands out its own storage: a user's write into a returned chain changes the continuation
     c = gibbs_case(W, [2, 2], 1, 15, scribble=True)
     out[SIG_GIBBS_LIVE] = (c.signature == SIG_GIBBS_LIVE, c.impl_fail or "a write into the returned chains does not reach the sampler")
+    # batches: remainder never flushed; a second call overwrites the files of the first
+    try:
+        fin = TR.batch_finalized(ctx.repo)
+    except Exception:
+        fin = False
+    cs = batch_cases(W, "MH/scale=0.7", [0.5, 0.25], 7, 3, 3, 16, fin)
+    out[SIG_BATCH] = (cs[0].signature == SIG_BATCH, cs[0].impl_fail or "all recorded samples are on disk")
+    out[SIG_BATCH2] = (len(cs) > 1 and cs[1].signature == SIG_BATCH2, (cs[1].impl_fail if len(cs) > 1 else None) or "files of the first call untouched")
+    # legacy Gibbs: sample(0, Nb) then sample(M)
+    c = gibbs_case(W, [0, 3], 2, 17)
+    out[SIG_GIBBS0] = (c.signature == SIG_GIBBS0, c.impl_fail or "continues from the warm-up chain")
     # NUTS.reinitialize resets max_depth to the default
     c = reinit_case(W, "NUTS/step_size=0.3,max_depth=2", [0.5, -0.25], [("S", 2)], 3, 14)
     out[SIG_NUTS] = (c.signature == SIG_NUTS, c.impl_fail or "max_depth kept")
